@@ -63,7 +63,14 @@ func refImageValid(img []byte, cert *x509.Certificate) (bool, string) {
 	}
 	reason := "no valid signature"
 	for _, wc := range refpe.CertTable(img, im) {
-		sd, err := refp7.Parse(wc.Body)
+		// the SignedData is the first TLV of the entry body; bytes after it inside the entry
+		// (a dwLength that includes alignment padding) do not make the signature less valid
+		root, _, perr := der.ParsePrefix(wc.Body)
+		if perr != nil {
+			reason = "signature blob unparsable"
+			continue
+		}
+		sd, err := refp7.FromTree(root)
 		if err != nil {
 			reason = "signature blob unparsable"
 			continue
@@ -93,6 +100,18 @@ func peBaseLayouts() []pegen.Layout {
 		{PE32Plus: false, Lfanew: 0x40, Secs: nil, Trailing: 7},                                                              // no sections, mod 8 = 7
 		{PE32Plus: true, Lfanew: 0x48, Secs: []pegen.Sec{{RawSize: 13}, {RawSize: 13}}, FileOrder: []int{1, 0}, Trailing: 1}, // mod 8 = 1
 	}
+}
+
+// peBigLayout is larger than io.Copy's 32 KiB chunk (several positional reads per pass).
+func peBigLayout() pegen.Layout {
+	return pegen.Layout{PE32Plus: true, Lfanew: 0x80, Secs: []pegen.Sec{{RawSize: 8}, {RawSize: 13, Gap: 4}}, FileOrder: []int{1, 0}, Trailing: 70001, Big: true}
+}
+
+// peChunkBoundaryLayout places the start of the second section exactly where the hashed stream
+// (the file minus the 4 checksum and 8 directory-entry bytes) reaches 32768 bytes, the chunk size
+// io.Copy reads with: file offset 32780 = SizeOfHeaders (408) + first section (32372).
+func peChunkBoundaryLayout() pegen.Layout {
+	return pegen.Layout{PE32Plus: true, Lfanew: 0x40, Secs: []pegen.Sec{{RawSize: 32372}, {RawSize: 4000}}, Trailing: 5}
 }
 
 func derMustParse(b []byte) *der.Node {
